@@ -3,6 +3,7 @@
 From Coq Require Import List NArith Bool Permutation.
 From Verif Require Import Base.Res Model.Cli Model.Analyzer Proofs.CliContract Proofs.AnalyzerProofs Base.Text Model.Scope Proofs.ScopeProofs Gen.GenRules Model.Rules Proofs.RulesProofs.
 From Verif Require Model.Lexer Proofs.PreprocessExact.
+From Verif Require Model.Lsp Model.Project Proofs.ProjectProofs Proofs.ProjectBoth.
 From Verif Require Model.DeclRules Proofs.DeclRulesProofs Model.ExprKind Proofs.ExprKindProofs Model.DataDecl Proofs.DataDeclProofs.
 Import ListNotations.
 
@@ -119,3 +120,12 @@ Theorem C03_preprocessor_changes_nothing_else : forall t,
   (exists s e, find_sub Lexer.oscat_open t = Some s /\ find_sub Lexer.oscat_close t = Some e /\ (e <= s)%nat) ->
   Lexer.preprocess t = t.
 Proof. exact PreprocessExact.preprocess_identity. Qed.
+
+(* Two files that hold the SAME text are two sources: both are handed to the analysis, each under its own identifier -- the
+   project (Model/Project.v: FileBackedProject::semantic, whose shape is regenerated from project.rs) never merges files by
+   content, so two declarations of one name in two files both reach the duplicate check (seeds C03l / C03m collapsed them). *)
+Theorem C03_equal_files_both_analyzed :
+  forall (text : Type) (d : Lsp.docs text) (k1 k2 : N) t,
+  k1 <> k2 -> Lsp.get text d k1 = Some t -> Lsp.get text d k2 = Some t ->
+  In (k1, t) (Project.listing text d) /\ In (k2, t) (Project.listing text d) /\ (k1, t) <> (k2, t).
+Proof. exact ProjectBoth.equal_files_both_analyzed. Qed.
